@@ -13,10 +13,11 @@
 //       waitany K K .. | read H S | write H S | aread H S | awrite H S | lock X | unlock X | join A
 //       (K = index of the op of the same actor that created the handle; M = mailbox name)
 // Boundary log of one run (clock printed %.17g, a = actor index, k = op index):
-//   BEGIN id path                       DONE id rc=<n>|sig=<n>|timeout
+//   BEGIN id path                       DONE id rc=<n>|sig=<n>|timeout [pid=<child>]
 //   Q clk a k kind args..               just before the API call
 //   R clk a k kind ok [k=v ..]          the call returned        R clk a k kind exc <Type>   the call threw <Type>
 //   K clk a k reason                    op skipped by the harness (handle consumed / never created)
+//   B clk a                             the body of actor a starts (its on_exit callback is registered)
 //   X clk a failed                      on_exit callback of actor a      Z clk a    body returned      T clk a   Actor::on_termination
 //   F clk a k                           Comm::on_completion signal for the s4u::Comm created by op k of actor a (kernel side finish)
 //   IQ clk path H|L idx on|off          the injector is about to change the state      IR clk path H|L idx is_on
@@ -34,6 +35,7 @@
 #include <map>
 #include <sstream>
 #include <string>
+#include <sys/time.h>
 #include <sys/wait.h>
 #include <unistd.h>
 #include <vector>
@@ -150,6 +152,7 @@ template <class F> static bool guarded(int ai, size_t k, const char* kind, F f)
 static void body(int ai)
 {
   sg4::this_actor::on_exit([ai](bool failed) { printf("X %.17g %d %d\n", now(), ai, failed ? 1 : 0); });
+  printf("B %.17g %d\n", now(), ai);
   std::map<int, Handle> H;
   const auto& ops = sc.actors[ai].ops;
   for (size_t k = 0; k < ops.size(); k++) {
@@ -524,6 +527,8 @@ int main(int argc, char** argv)
   }
   for (auto const& run : sc.runs) {
     printf("BEGIN %s %c\n", run.id.c_str(), run.path);
+    struct timeval tv0;
+    gettimeofday(&tv0, nullptr);
     fflush(stdout);
     fflush(stderr);
     pid_t pid = fork();
@@ -547,12 +552,15 @@ int main(int argc, char** argv)
         break;
       }
     }
+    struct timeval tv1;
+    gettimeofday(&tv1, nullptr);
+    long ms = (tv1.tv_sec - tv0.tv_sec) * 1000 + (tv1.tv_usec - tv0.tv_usec) / 1000;
     if (timeout)
       printf("DONE %s timeout\n", run.id.c_str());
     else if (WIFSIGNALED(status))
-      printf("DONE %s sig=%d\n", run.id.c_str(), WTERMSIG(status));
+      printf("DONE %s sig=%d pid=%d wall_ms=%ld\n", run.id.c_str(), WTERMSIG(status), (int)pid, ms);
     else
-      printf("DONE %s rc=%d\n", run.id.c_str(), WEXITSTATUS(status));
+      printf("DONE %s rc=%d pid=%d wall_ms=%ld\n", run.id.c_str(), WEXITSTATUS(status), (int)pid, ms);
   }
   return 0;
 }
